@@ -116,7 +116,19 @@ macro_rules! mutvec_body {
 mutvec_body!(mutvec, MutBumpVec, false);
 mutvec_body!(mutvec_rev, MutBumpVecRev, true);
 
+// `h!`: byte elements (no typed multi-byte copy anywhere). `hc!`: multi-byte elements whose growth copies typed
+// elements with a symbolic count (needs the copy stub, DESIGN.md 2.8).
 macro_rules! h {
+    ($name:ident, $body:expr) => {
+        #[kani::proof]
+        #[kani::unwind(8)]
+        #[kani::stub(std::alloc::handle_alloc_error, crate::stubs::hae_stub)]
+        fn $name() {
+            $body;
+        }
+    };
+}
+macro_rules! hc {
     ($name:ident, $body:expr) => {
         #[kani::proof]
         #[kani::unwind(8)]
@@ -131,19 +143,19 @@ macro_rules! h {
 // stays in the first chunk (filler 4 B, 3 pushes of u8/u16), finalise and drop
 h!(mutvec_u8_up1_stay_final, mutvec::<u8, S<1, true>, 4, 3, 3, 9, true>(0));
 h!(mutvec_u8_down1_stay_final, mutvec::<u8, S<1, false>, 4, 3, 3, 9, true>(0));
-h!(mutvec_u16_up4_stay_final, mutvec::<u16, S<4, true>, 3, 2, 3, 9, true>(0));
-h!(mutvec_u32_down1_stay_drop, mutvec::<u32, S<1, false>, 2, 2, 2, 9, false>(0));
+hc!(mutvec_u16_up4_stay_final, mutvec::<u16, S<4, true>, 3, 2, 3, 9, true>(0));
+hc!(mutvec_u32_down1_stay_drop, mutvec::<u32, S<1, false>, 2, 2, 2, 9, false>(0));
 h!(mutvec_u8_up1_stay_drop, mutvec::<u8, S<1, true>, 4, 3, 3, 9, false>(0));
 // creation does not fit (filler 14 B, capacity 3 x u16 = 6 B > 2 B left): the vector starts in chunk 2
-h!(mutvec_u16_up1_switch_final, mutvec::<u16, S<1, true>, 14, 3, 3, 9, true>(1));
-h!(mutvec_u16_down1_switch_drop, mutvec::<u16, S<1, false>, 14, 3, 3, 9, false>(1));
+hc!(mutvec_u16_up1_switch_final, mutvec::<u16, S<1, true>, 14, 3, 3, 9, true>(1));
+hc!(mutvec_u16_down1_switch_drop, mutvec::<u16, S<1, false>, 14, 3, 3, 9, false>(1));
 // growth by copy: 12 B filler, capacity 2 x u16 fits (4 B), the 3rd push re-prepares in chunk 2 and copies
-h!(mutvec_u16_up1_grow_final, mutvec::<u16, S<1, true>, 12, 2, 3, 2, true>(0));
-h!(mutvec_u16_down1_grow_final, mutvec::<u16, S<1, false>, 12, 2, 3, 2, true>(0));
+hc!(mutvec_u16_up1_grow_final, mutvec::<u16, S<1, true>, 12, 2, 3, 2, true>(0));
+hc!(mutvec_u16_down1_grow_final, mutvec::<u16, S<1, false>, 12, 2, 3, 2, true>(0));
 h!(mutvec_u8_up1_grow_drop, mutvec::<u8, S<1, true>, 14, 2, 3, 2, false>(0));
 // reverse vector
 h!(mutvecrev_u8_up1_stay_final, mutvec_rev::<u8, S<1, true>, 4, 3, 3, 9, true>(0));
-h!(mutvecrev_u16_down1_stay_final, mutvec_rev::<u16, S<1, false>, 4, 3, 3, 9, true>(0));
-h!(mutvecrev_u16_up1_grow_final, mutvec_rev::<u16, S<1, true>, 12, 2, 3, 2, true>(0));
+hc!(mutvecrev_u16_down1_stay_final, mutvec_rev::<u16, S<1, false>, 4, 3, 3, 9, true>(0));
+hc!(mutvecrev_u16_up1_grow_final, mutvec_rev::<u16, S<1, true>, 12, 2, 3, 2, true>(0));
 h!(mutvecrev_u8_down4_grow_drop, mutvec_rev::<u8, S<4, false>, 14, 2, 3, 2, false>(0));
-h!(mutvecrev_u32_up1_switch_final, mutvec_rev::<u32, S<1, true>, 14, 2, 2, 9, true>(1));
+hc!(mutvecrev_u32_up1_switch_final, mutvec_rev::<u32, S<1, true>, 14, 2, 2, 9, true>(1));
